@@ -63,6 +63,7 @@ pub fn child_main(job: &Value) -> Value {
         Some("c11big") => crate::props::c11::job(job),
         Some("c20big") => crate::props::c20::job(job),
         Some("c12big") => crate::props::c12::job(job),
+        Some("c13big") => crate::props::c13::job(job),
         other => serde_json::json!({"error": format!("unknown job kind {other:?}")}),
     }
 }
